@@ -23,7 +23,7 @@ ASSUMPTIONS = [
     "the number of scheduled seasons and the resolved latest-harvest dates are taken from the model's clock; their spacing, first date and the per-day consequences are checked",
     "stepping through the run in other partitions is covered by C09 (bitwise equality with the one-day stepping used here)",
 ]
-BUDGET = {"quick": 320, "thorough": 6000}
+BUDGET = {"quick": 480, "thorough": 6000}
 PROFILE = gen.profile(seasons=(1, 3), max_days=1400, p_gdd=0.35, p_scale=0.7, p_harvest=0.3, p_off=0.5, p_override=0.1,
                       rel_start=(("on", 3), ("before", 3), ("after", 3)),
                       end_kind=(("after_harvest", 4), ("mid_season", 3), ("exact_year", 3)),
